@@ -33,6 +33,14 @@ def gen(tier, seed):
         for t in brace + ['aa', 'aaa', 'a', 'abbc', '']:
             pairs.append((t, p))
     exhaustive['pairs over {a { 2 , }} (quantifier shapes)'] = True
+    # patterns and texts that spell members of the host language's base objects (a cache or map keyed by the pattern must be a real map)
+    words = ['constructor', '__proto__', 'toString', 'valueOf', 'hasOwnProperty', 'prototype', '__class__', '__dict__', 'length', 'keys', 'get', 'None', 'null', 'undefined', 'true']
+    for w in words:
+        for t in (w, 'x' + w, w + 'y', w[:-1], '', 'xy' + w[2:-2] + 'zw'):
+            pairs.append((t, w))
+            pairs.append((t, '%' + w))
+            pairs.append((t, w.replace('o', '_', 1)))
+    exhaustive['patterns spelling members of Object.prototype / Python object attributes'] = True
     for p in sub:
         for t in sub:
             pairs.append((t, p))
